@@ -24,7 +24,10 @@ RULE = (
     "answer of a kind equals the first answer of that kind (text; severity; frozenset of "
     "(analysis name, severity, message)); dumps() equals the input after every query. "
     "Cross-process: a corpus of generated pickles is digested by two fresh interpreters with "
-    "PYTHONHASHSEED=0 and =4242; digests must be equal. Non-trivial = the sequence asks some "
+    "PYTHONHASHSEED=0 and =4242, one analysing the corpus front-to-back and the other back-to-"
+    "front (answers must not depend on what was analysed before); sequences may also analyse an "
+    "unrelated decoy pickle (numerically equal constants of other types) between queries. "
+    "Non-trivial = the sequence asks some "
     "kind again after a different kind, and the pickle contains a dict/set/frozenset or yields "
     ">= 2 findings; distinct = distinct (bytes, query sequence)."
 )
@@ -36,6 +39,16 @@ ASSUMPTIONS = [
     "quantifier; on those, a second has_import/has_call after a failed first one answers False "
     "instead of raising (observed, see C14)",
 ]
+
+def _mk_decoys():
+    out = []
+    for v in (1, 1.0, True, 0, 0.0, -0.0, False, "1", b"1", [1.0, 1], (True, 1), {1: 1.0}, 2**31, float(2**31)):
+        for proto in (0, 2, 4):
+            out.append(pickle.dumps(v, protocol=proto))
+    return tuple(dict.fromkeys(out))
+
+
+DECOYS = _mk_decoys()
 
 QUERIES = ("source", "safety", "trace", "has_import", "has_call", "has_nss_call", "imports",
            "unsafe_imports", "nonstd_imports", "dumps", "likely_safe_file")  # fmt: skip
@@ -104,6 +117,14 @@ def check_sequence(data, seq, path):
     nfind = 0
     case = {"hex": data.hex(), "seq": [list(x) for x in seq]}
     for i, (q, which) in enumerate(seq):
+        if q == "decoy":
+            # analyse an unrelated pickle in between (numerically-equal constants of other types)
+            try:
+                d = Pickled.load(DECOYS[which % len(DECOYS)])
+                ast.unparse(d.ast)
+            except Exception:  # noqa: BLE001
+                pass
+            continue
         ans = ask(copies[which], q, data, path)
         kind = ans[0]
         if kind == "safety" and len(ans) == 3 and isinstance(ans[2], frozenset):
@@ -168,9 +189,14 @@ def replay(case):
             _rm(path)
     # cross-process case
     data = bytes.fromhex(case["hex"])
-    d0, d1 = _child_digests([data], "0"), _child_digests([data], "4242")
-    if d0 != d1:
-        return Failure(case, f"digest of {data!r} differs between PYTHONHASHSEED=0 and 4242")
+    corpus = [bytes.fromhex(x) for x in case.get("context", [])] + [data]
+    d0, d1 = _child_digests(corpus, "0"), _child_digests(corpus, "4242", reverse=True)
+    if d0[-1] != d1[-1]:
+        return Failure(
+            case,
+            f"answers for {data!r} differ between two fresh processes (different PYTHONHASHSEED, "
+            "different order of previously analysed pickles)",
+        )
     return None
 
 
@@ -194,14 +220,20 @@ def _rm(path):
         os.rmdir(os.path.dirname(path))
 
 
-def _child_digests(corpus, hashseed):
+def _child_digests(corpus, hashseed, reverse=False):
+    """digests in corpus order; with reverse=True the child *analyses* the corpus back to
+    front (answers must not depend on what the process analysed before)"""
     code = (
         "import sys, json\n"
         f"sys.path.insert(0, {env.VERIF_ROOT!r})\n"
         "from vlib import env\n"
         "from checks import c13\n"
         "items = [bytes.fromhex(l) for l in sys.stdin.read().split()]\n"
-        "print(json.dumps([c13.digest_item(d) for d in items]))\n"
+        f"order = list(range(len(items)))[::{-1 if reverse else 1}]\n"
+        "out = {}\n"
+        "for i in order:\n"
+        "    out[i] = c13.digest_item(items[i])\n"
+        "print(json.dumps([out[i] for i in range(len(items))]))\n"
     )
     e = dict(os.environ)
     e["PYTHONHASHSEED"] = hashseed
@@ -244,7 +276,11 @@ def _case_strategy():
     ).map(lambda t: _dumps(*t))
     data = st.one_of(progs, nat).filter(lambda b: b is not None)
     seq = st.lists(
-        st.tuples(st.sampled_from(QUERIES), st.sampled_from([0, 1])), min_size=2, max_size=12
+        st.one_of(
+            st.tuples(st.sampled_from(QUERIES), st.sampled_from([0, 1])),
+            st.tuples(st.just("decoy"), st.integers(0, len(DECOYS) - 1)),
+        ),
+        min_size=2, max_size=12,
     )
     return st.tuples(data, seq)
 
@@ -296,17 +332,24 @@ def run_shard(spec, seed):
             return None
 
         hypothesis_search(_case_strategy(), collect, seed, spec["n"], res, batch=spec["n"])
-        corpus = sorted(set(corpus))
+        corpus = sorted(set(corpus) | set(DECOYS))
         d0 = _child_digests(corpus, "0")
-        d1 = _child_digests(corpus, "4242")
-        for data, a, b in zip(corpus, d0, d1):
+        d1 = _child_digests(corpus, "4242", reverse=True)
+        for i, (data, a, b) in enumerate(zip(corpus, d0, d1)):
             res.note(data, _interesting(data), klass="xproc", sample={"xproc": data.hex()})
             if a != b:
+                # minimise the context: which single other item is enough to change the answer?
+                ctx = []
+                for j, other in enumerate(corpus):
+                    if j != i and _child_digests([other, data], "0")[-1] != _child_digests([data], "0")[-1]:
+                        ctx = [other.hex()]
+                        break
                 res.failures.append(
                     Failure(
-                        {"hex": data.hex()},
-                        f"answers for {data!r} differ between a process with PYTHONHASHSEED=0 and "
-                        "one with PYTHONHASHSEED=4242",
+                        {"hex": data.hex(), "context": ctx},
+                        f"answers for {data!r} differ between two fresh processes (PYTHONHASHSEED 0 "
+                        "vs 4242, corpus analysed front-to-back vs back-to-front)"
+                        + (f"; analysing {bytes.fromhex(ctx[0])!r} first is enough to change them" if ctx else ""),
                     )
                 )
                 break
